@@ -21,6 +21,36 @@ theorem noRunning_of_noheld {s : St} (h : SInv s) (hn : NoHeld s) : (snap s).con
   rw [(h.held_running c hc).mpr hr] at this
   cases this
 
+theorem no_join_of_bg {obs : List Ob} (h : BG obs) {o : Ob} (ho : o ∈ obs) (hj : isJoinOb o = true) : False := by
+  have := h o ho; rw [not_bg_of_join hj] at this; cases this
+
+theorem afterPrepare_join_post (s : St) (o : Ob) (ho : o ∈ (afterPrepare s).2) : (afterPrepare s).1.jpc = .join := by
+  unfold afterPrepare at ho ⊢
+  split
+  · rename_i h; simp [h] at ho
+  · rfl
+
+theorem prepare_join_post (s : St) (o : Ob) (ho : o ∈ (prepare s).2) (hj : isJoinOb o = true) : (prepare s).1.jpc = .join := by
+  by_cases h1 : s.stopDraining = true
+  · have e : prepare s = ({ s with jpc := .hang }, []) := by unfold prepare; simp [h1]
+    rw [e] at ho; cases ho
+  · by_cases h2 : (heldCids s).isEmpty = true
+    · have e : prepare s = afterPrepare s := by unfold prepare; simp [h1, h2]
+      rw [e] at ho ⊢; exact afterPrepare_join_post s o ho
+    · by_cases h3 : (drainFails s || (beginDrain s).2.2.pending.isEmpty) = true
+      · have e : prepare s = andThen (andThen ((beginDrain s).1, (beginDrain s).2.1) fun s' => drainDone s' (beginDrain s).2.2 (!drainFails s)) afterPrepare := by
+          unfold prepare; simp only [h1, h2, h3]; simp
+        rw [e] at ho ⊢
+        rw [andThen_snd, andThen_snd] at ho
+        rcases List.mem_append.mp ho with x | x
+        · rcases List.mem_append.mp x with y | y
+          · exact (no_join_of_bg (beginDrain_bg s) y hj).elim
+          · exact (no_join_of_bg (drainDone_bg _ _ _) y hj).elim
+        · exact afterPrepare_join_post _ o x
+      · have e : (prepare s).2 = (beginDrain s).2.1 := by unfold prepare; simp only [h1, h2, h3]; simp
+        rw [e] at ho
+        exact (no_join_of_bg (beginDrain_bg s) ho hj).elim
+
 /-- a step that issues a join leaves the coroutine waiting for the join reply -/
 theorem step_join_post (cfg : Cfg) (s : St) (e : Ev) (o : Ob) (ho : o ∈ (step cfg s e).2) (hj : isJoinOb o = true) :
     (step cfg s e).1.jpc = .join := by
@@ -31,18 +61,15 @@ theorem step_join_post (cfg : Cfg) (s : St) (e : Ev) (o : Ob) (ho : o ∈ (step 
     cases r with
     | err e => simp [expectedSig] at hsig
     | ok =>
-      simp only [expectedSig] at hsig
-      split at hsig
-      · cases hsig
-      · split at hsig
-        · cases hsig
-        · split at hsig
-          · rename_i h1 h2 h3
-            have h1' : s.jpc = .metaLoad := by simpa using h1
-            have h2' : s.stopping = false := by simpa using h2
-            simp only [heldCids] at h3
-            simp [step, h1', h2', prepare, afterPrepare, heldCids, h3]
-          · cases hsig
+      by_cases h1 : (s.jpc != .metaLoad) = true
+      · have e : step cfg s (.metaDone .ok) = (s, [.badOp]) := by simp only [step, h1, if_true]
+        rw [e] at ho; simp at ho; subst ho; cases hj
+      · by_cases h2 : s.stopping = true
+        · have e : (step cfg s (.metaDone .ok)).2 = [] := by simp [step, h1, h2]
+          rw [e] at ho; cases ho
+        · have e : step cfg s (.metaDone .ok) = prepare { s with coordBroker := true } := by simp [step, h1, h2]
+          rw [e] at ho ⊢
+          exact prepare_join_post _ o ho hj
   | consumerDown cid ok =>
     simp only [expectedSig] at hsig
     split at hsig
@@ -113,20 +140,25 @@ theorem step_join_post (cfg : Cfg) (s : St) (e : Ev) (o : Ob) (ho : o ∈ (step 
   | hbDone r => simp [expectedSig] at hsig
   | leaveDone r => simp [expectedSig] at hsig
   | consumerErr cid e => simp [expectedSig] at hsig
-  | fire id =>
-    simp only [expectedSig] at hsig
-    split at hsig
-    · cases hsig
-    · split at hsig
-      · cases hsig
-      · split at hsig
-        · split at hsig
-          · cases hsig
-          · simp at hsig; subst hsig; cases hj
-        · simp only [lookupSig] at hsig
-          split at hsig
-          · simp at hsig; subst hsig; cases hj
-          · cases hsig
+  | consumerQuirk cid q => simp [expectedSig] at hsig
+  | fire id hbNext =>
+    have : ∀ x ∈ expectedSig s (.fire id hbNext), isJoinOb x = false := by
+      intro x hx
+      simp only [expectedSig, lookupSig] at hx
+      split at hx
+      · cases hx
+      · split at hx
+        · cases hx
+        · split at hx
+          · cases hx
+          · split at hx
+            · split at hx
+              · cases hx
+              · simp at hx; subst hx; rfl
+            · split at hx
+              · simp at hx; subst hx; rfl
+              · cases hx
+    rw [this o hsig] at hj; cases hj
   | advance dt => simp [expectedSig] at hsig
 
 theorem joinNoRunning_run (cfg : Cfg) (evs : List Ev) :
@@ -167,15 +199,18 @@ theorem expectedSig_no_start (s : St) (e : Ev) (h : ∀ a, e ≠ .syncDone (.ok 
   | start => simp only [expectedSig, lookupSig]; split <;> (try split) <;> rfl
   | stop => rfl
   | coordDone r => cases r <;> simp only [expectedSig] <;> (try split) <;> rfl
-  | metaDone r => cases r <;> simp only [expectedSig] <;> (try split) <;> (try split) <;> (try split) <;> rfl
+  | metaDone r => cases r <;> simp only [expectedSig] <;> (try split) <;> (try split) <;> (try split) <;> (try split) <;> (try split) <;> rfl
   | joinDone r => cases r <;> simp only [expectedSig] <;> (try split) <;> (try split) <;> (try split) <;> rfl
   | partsDone r => cases r <;> simp only [expectedSig] <;> (try split) <;> (try split) <;> rfl
   | hbDone r => rfl
   | leaveDone r => rfl
   | consumerDown cid ok => simp only [expectedSig]; split <;> (try split) <;> (try split) <;> (try split) <;> rfl
   | consumerErr cid e => rfl
-  | fire id =>
+  | consumerQuirk cid q => rfl
+  | fire id hbNext =>
     simp only [expectedSig, lookupSig]
+    split
+    · rfl
     split
     · rfl
     · split
